@@ -679,6 +679,36 @@ impl Case {
         }
     }
 
+    /// `ExactSizeIterator::len()` along a walk: exactly the number of items left
+    /// (std's `len()` itself panics when the two ends of `size_hint` disagree).
+    pub fn iter_exact_len<T, I: ExactSizeIterator<Item = T>>(&mut self, op: &str, mk: impl Fn() -> I, n: usize, trace: &dyn Fn() -> String) {
+        let ks: Vec<usize> = {
+            let r = self.rng();
+            let mut v = vec![0, 1, n / 2, n.saturating_sub(1), n, n + 1];
+            v.push(r.random_range(0..=n));
+            v.sort_unstable();
+            v.dedup();
+            v
+        };
+        for &k in &ks {
+            match catch(|| {
+                let mut it = mk();
+                for _ in 0..k {
+                    if it.next().is_none() {
+                        break;
+                    }
+                }
+                (it.len(), it.size_hint())
+            }) {
+                Ok((l, h)) => {
+                    let want = n.saturating_sub(k);
+                    self.check(op, l == want && h == (want, Some(want)), || format!("after {} of {} items len() = {} and size_hint() = {:?}, {} items are left; {}", k.min(n), n, l, h, want, trace()));
+                }
+                Err(m) => self.fail(op, "panic", &m, &format!("len()/size_hint() after {} of {} items panicked; {}", k, n, trace())),
+            }
+        }
+    }
+
     /// A call that must panic (rejected input). Returns true if it did.
     pub fn expect_panic<R>(&mut self, op: &str, f: impl FnOnce() -> R) -> bool {
         self.evals += 1;
